@@ -1,6 +1,7 @@
 package rules
 
 import (
+	"os"
 	"fmt"
 	"go/token"
 	"go/types"
@@ -144,30 +145,78 @@ func checkNilBeliefsAcrossCalls(c *core.Ctx, prog *core.Prog, table *panicob.Tab
 					return true
 				}
 			}
+		case *ssa.UnOp:
+			// a variable cell (captured by a closure): whatever was stored into it
+			if al, ok := x.X.(*ssa.Alloc); ok && x.Op == token.MUL {
+				for _, ref := range *al.Referrers() {
+					if st, ok := ref.(*ssa.Store); ok && st.Addr == ssa.Value(al) && canBeNil(st.Val, depth+1, seen) {
+						return true
+					}
+				}
+			}
 		}
 		return false
 	}
-	for iter := 0; iter < 3; iter++ {
+	for iter := 0; iter < 8; iter++ {
 		for _, f := range all {
 			res := f.Signature.Results()
 			if res.Len() == 0 || !isPtr(res.At(0).Type()) {
 				continue
 			}
+			// functions with a defer spill their results: `*r0 = v0; *r1 = v1; rundefers; return *r0, *r1` —
+			// look at the stores instead
+			type rv struct{ results []ssa.Value }
+			var rets []rv
 			for _, b := range f.Blocks {
 				ret, ok := b.Instrs[len(b.Instrs)-1].(*ssa.Return)
 				if !ok || len(ret.Results) != res.Len() {
 					continue
 				}
-				if !canBeNil(ret.Results[0], 0, map[ssa.Value]bool{}) {
+				vals := make([]ssa.Value, len(ret.Results))
+				spilled := false
+				for i, rr := range ret.Results {
+					vals[i] = rr
+					if ld, ok := rr.(*ssa.UnOp); ok && ld.Op == token.MUL {
+						if al, ok := ld.X.(*ssa.Alloc); ok {
+							for _, in := range b.Instrs {
+								if st, ok := in.(*ssa.Store); ok && st.Addr == ssa.Value(al) {
+									vals[i] = st.Val
+									spilled = true
+								}
+							}
+						}
+					}
+				}
+				_ = spilled
+				rets = append(rets, rv{vals})
+			}
+			for _, ret := range rets {
+				if !canBeNil(ret.results[0], 0, map[ssa.Value]bool{}) {
 					continue
 				}
 				switch {
 				case res.Len() == 1:
 					mayNil1[f] = true
-				case res.Len() == 2 && core.IsErrorType(res.At(1).Type()) && core.IsNilConst(ret.Results[1]):
+				case res.Len() == 2 && core.IsErrorType(res.At(1).Type()) && core.IsNilConst(ret.results[1]):
 					mayNilNil[f] = true
+				case res.Len() == 2 && core.IsErrorType(res.At(1).Type()):
+					// `return g(…)`: both results of one call to a function with a (nil, nil) path
+					e0, ok0 := ret.results[0].(*ssa.Extract)
+					e1, ok1 := ret.results[1].(*ssa.Extract)
+					if ok0 && ok1 && e0.Tuple == e1.Tuple {
+						if call, ok := e0.Tuple.(*ssa.Call); ok {
+							if g := call.Common().StaticCallee(); g != nil && mayNilNil[g] {
+								mayNilNil[f] = true
+							}
+						}
+					}
 				}
 			}
+		}
+	}
+	if os.Getenv("OGENVERIF_NILDEBUG") != "" {
+		for f := range mayNilNil {
+			fmt.Fprintln(os.Stderr, "MAYNILNIL", core.FuncName(f))
 		}
 	}
 	r.Note("functions testing a pointer parameter for nil: %d; functions with a (nil, nil) return: %d; single-result functions that can return nil: %d", len(tolerates), len(mayNilNil), len(mayNil1))
@@ -329,6 +378,22 @@ func checkNilBeliefsAcrossCalls(c *core.Ctx, prog *core.Prog, table *panicob.Tab
 				for _, in := range b.Instrs {
 					var ptr ssa.Value
 					switch x := in.(type) {
+					case *ssa.Call:
+						// handing the value to a module function that dereferences that parameter and never tests it
+						// for nil is a dereference
+						if g := x.Common().StaticCallee(); g != nil && g.Blocks != nil && core.InModule(g) {
+							for i, a := range x.Common().Args {
+								if i >= len(g.Params) || !isPtr(a.Type()) || !samePlace(a, bl.v) {
+									continue
+								}
+								if _, tested := tolerates[g][i]; tested {
+									continue
+								}
+								if derefsParamSomewhere(g, i) {
+									ptr = a
+								}
+							}
+						}
 					case *ssa.FieldAddr:
 						ptr = x.X
 					case *ssa.UnOp:
@@ -586,4 +651,31 @@ func sameFieldLoad(a, b ssa.Value) bool {
 	fa, ok1 := la.X.(*ssa.FieldAddr)
 	fb, ok2 := lb.X.(*ssa.FieldAddr)
 	return ok1 && ok2 && fa.X == fb.X && fa.Field == fb.Field
+}
+
+
+// derefsParamSomewhere: the function loads or stores through its i-th parameter.
+func derefsParamSomewhere(g *ssa.Function, i int) bool {
+	p := g.Params[i]
+	if p.Referrers() == nil {
+		return false
+	}
+	for _, ref := range *p.Referrers() {
+		switch x := ref.(type) {
+		case *ssa.FieldAddr:
+			if x.X == ssa.Value(p) && x.Referrers() != nil {
+				for _, u := range *x.Referrers() {
+					switch u.(type) {
+					case *ssa.UnOp, *ssa.Store:
+						return true
+					}
+				}
+			}
+		case *ssa.UnOp:
+			if x.Op == token.MUL && x.X == ssa.Value(p) {
+				return true
+			}
+		}
+	}
+	return false
 }
